@@ -381,10 +381,10 @@ def gen_plan(rng, tier):
     for e in sorted(have_engine):
         if engine_set.get(e) is not None and rng.random() < 0.7:
             ops.append(["compute", e])
-    if rng.random() < 0.01 and len(sets[0]) <= 8:
+    if rng.random() < 0.015 and len(sets[0]) <= 8:
         # a long-lived process: hundreds of re-layouts on one engine (state that only
         # builds up over time - counters, pools, caches that fill)
-        for _ in range(rng.choice([150, 400])):
+        for _ in range(rng.choice([200, 500, 900])):
             ops.append(["compute", 0])
             if rng.random() < 0.1:
                 ops.append(["set_labels", 0, 0, rng.choice(["same", "permute", "fresh"]), rng.randrange(1 << 30)])
